@@ -432,6 +432,44 @@ def cases(rng, tier):
     if th:
         for a_ in SD4[:3]:
             out.append(lib_case(rng, zmul(a_, SD8[1]), 'two-splitting-factors'))
+    # ---- the first thing factorize does with a non-square-free input is resultant_gcd(pp, pp'): that call alone (no
+    # factorisation, so thousands are cheap) on products g^e * h * k, whose remainder sequences have late degree gaps
+    def zderiv(a): return trim([i * a[i] for i in range(1, len(a))])
+    def o_sqfree_gcd(a):
+        def orc(ia):
+            # gcd(a, a') must divide a exactly, and a / gcd must be square-free over Q (gcd with its derivative constant)
+            if ia.kind != 'ok': return 'resultant_gcd(a, a\') did not return: %s' % ia.raw[:100]
+            d = trim(list(ia.val))
+            if not d: return 'gcd is zero'
+            from fractions import Fraction as Fr
+            def divmod_q(x, y):
+                x = [Fr(t) for t in x]; q = [Fr(0)] * max(0, len(x) - len(y) + 1)
+                while len(x) >= len(y) and any(x):
+                    c = x[-1] / y[-1]; k = len(x) - len(y); q[k] = c
+                    for i2, t in enumerate(y): x[k + i2] -= c * t
+                    while x and x[-1] == 0: x.pop()
+                return q, x
+            q, r = divmod_q(a, d)
+            if r: return 'returned gcd %s does not divide a = %s' % (d, a)
+            while q and q[-1] == 0: q.pop()
+            if len(q) <= 1: return None
+            # square-free part: gcd(q, q') over Q must be constant
+            u, v = q, [i2 * q[i2] for i2 in range(1, len(q))]
+            while v and any(v):
+                _, rr = divmod_q(u, v); u, v = v, rr
+            if len(u) > 1: return 'a / gcd(a, a\') is not square-free: a = %s, returned gcd %s' % (a, d)
+            return None
+        return orc
+    small = [[1, 1], [-1, 1], [2, 1], [1, 2], [1, 0, 1], [1, 1, 1], [-2, 0, 1], [2, 0, 1], [-3, 0, 1], [1, 0, 0, 1], [2, 0, 0, 1], [1, 1, 0, 1],
+             [1, 0, 0, 0, 1], [-1, 1, 0, 1], [1, 0, 2], [3, 1, 1]]
+    for k in range(500 if not th else 5000):
+        g_ = rng.choice(small); e_ = rng.choice([2, 2, 3, 3, 4])
+        a_ = zscal(rng.choice([1, 1, -1, -3, 2]), zpow(g_, e_))
+        for h_ in rng.sample(small, rng.choice([1, 2, 2, 3])):
+            if h_ != g_: a_ = zmul(a_, h_)
+        if len(a_) > 18: continue
+        out.append(Case('resultant_gcd', line('resultant_gcd', a_, zderiv(a_)), oracle=o_sqfree_gcd(a_), always_oracle=True,
+                        tag='gcd-with-derivative'))
     # ---- many modular factors: products of distinct linear factors (subset search restarts)
     for k in ([3, 5, 8, 12, 16, 20, 25] if th else [3, 5, 8, 11]):
         f = zprod([[-r, 1] for r in range(1, k + 1)])
